@@ -15,6 +15,8 @@ oracle (implementation only, independent of the model):
     (media context, rule with every URL made absolute with urljoin) obtained by an independent expansion of the
     virtual file system is the same before and after flattening.
 """
+import ast
+import hashlib
 import json
 import logging
 import os
@@ -29,6 +31,31 @@ ALPH = ['a', 'b', 'x.png', 'css', 'img', '..', '.', '/', '/', '/', '//', '?', '#
         '(', ')', '\n', '\x00', '\x7f', 'file:', 'HTTP:', '1', ',', '!', '*', '$', '|', '<', '{']
 BASES = ['http://h/base/main.css', 'http://h/main.css', 'http://h/a/b/', 'file:///a/b/c.css', 'http://h', '/x/y.css',
          'x/y.css', 'https://u:p@h:80/a/b.css?q#f', 'http://h/a;p/b;q', '//h/x/y', 'mailto:a@b', 'svn+ssh://s/r/t']
+
+
+def replacer_safe(repo):
+    """the `safe=` literal of the urllib.parse.quote call in Replacer.__call__ (cssutils/__init__.py), read from the
+    source without importing it"""
+    path = os.path.join(repo, 'cssutils', '__init__.py')
+    src = open(path, encoding='utf-8').read()
+    tree = ast.parse(src)
+    found = []
+    for node in ast.walk(tree):
+        if isinstance(node, ast.ClassDef) and node.name == 'Replacer':
+            for fn in node.body:
+                if isinstance(fn, ast.FunctionDef) and fn.name == '__call__':
+                    for call in ast.walk(fn):
+                        if isinstance(call, ast.Call) and isinstance(call.func, ast.Attribute) \
+                                and call.func.attr == 'quote':
+                            for kw in call.keywords:
+                                if kw.arg == 'safe' and isinstance(kw.value, ast.Constant) \
+                                        and isinstance(kw.value.value, str):
+                                    found.append(kw.value.value)
+    if len(found) != 1:
+        raise RuntimeError('expected exactly one quote(..., safe=<literal>) in Replacer.__call__, found %r' % found)
+    if any(ord(c) > 127 for c in found[0]):
+        raise RuntimeError('non-ASCII character in the safe set: not supported by the model')
+    return found[0], hashlib.sha256(src.encode('utf-8')).hexdigest()
 
 
 def impl():
@@ -69,6 +96,7 @@ class C19(Check):
         'C02/C03); here they are used to render generated sheets and to project results',
     )
     assumptions = (
+        'the `safe` set of quote() in Replacer.__call__ is a literal (regenerated into Gen/C19Safe.lean each run)',
         'cssutils.log.raiseExceptions is True (the default): a refused CSSMediaRule.add raises HierarchyRequestErr',
         'sheets have an href; fetchers answer from a fixed virtual file system (deterministic, no network)',
         'URL hosts are ASCII without brackets (urlsplit validates bracketed and non-ASCII hosts with ipaddress / '
@@ -83,13 +111,26 @@ class C19(Check):
             'distinct string whose result differs from its input')
 
     # ------------------------------------------------------------------------------------------
+    def translate(self, ctx):
+        safe, sha = replacer_safe(ctx.repo)
+        body = ('/-! GENERATED by tools/harness/c19.py from cssutils/__init__.py (sha256 %s) — do not edit.\n'
+                'The `safe` argument of `urllib.parse.quote` in `Replacer.__call__`. -/\n'
+                'namespace CssVerif.Gen.C19\n\n'
+                '/-- %s -/\n'
+                'def replacerSafeChars : List Nat := [%s]\n\n'
+                'end CssVerif.Gen.C19\n'
+                % (sha, ' '.join('U+%04X' % ord(c) for c in safe), ', '.join('0x%02X' % ord(c) for c in safe)))
+        return {'CssVerif/Gen/C19Safe.lean': body}
+
     def run(self, ctx):
         cssutils = impl()
+        self.safe = replacer_safe(ctx.repo)[0]
+        ctx.notes['replacer_safe'] = self.safe
         try:
-            self.corpus(ctx, cssutils)
-            self.corr_strings(ctx, cssutils)
-            self.corr_urls(ctx, cssutils)
-            self.flatten(ctx, cssutils)
+            ctx.phase(self.corpus, ctx, cssutils)
+            ctx.phase(self.corr_strings, ctx, cssutils)
+            ctx.phase(self.corr_urls, ctx, cssutils)
+            ctx.phase(self.flatten, ctx, cssutils)
         finally:
             cssutils.ser.prefs.useDefaults()
 
@@ -114,7 +155,7 @@ class C19(Check):
             ('psplit ' + enc(s), call(os.path.split, s)),
             ('pjoin %s %s %s' % (enc(s), enc(t), enc('f')), call(os.path.join, s, t, 'f')),
             ('urlsplit ' + enc(s), call(lambda x: tuple(up.urlsplit(x)), s)),
-            ('quote ' + enc(s), call(lambda x: up.quote(x, safe='/%'), s)),
+            ('quote ' + enc(s), call(lambda x: up.quote(x, safe=self.safe), s)),
             ('urljoin %s %s' % (enc(b), enc(t)), call(up.urljoin, b, t)),
             ('replacer %s %s' % (enc(s), enc(t)), call(lambda x, y: cssutils.Replacer(x)(y), s, t)),
         ]
@@ -189,7 +230,7 @@ class C19(Check):
             return None
         w = {'css': text}
         want_urls = all_urls(sheet)
-        nested = want_urls != top_urls(sheet)
+        nested = want_urls != top_urls(sheet)      # a url() inside a function argument
         urls = list(cssutils.getUrls(s))
         ctx.case(key=('urls', text), nontrivial=bool(want_urls), kind='urls:%s' % ('nested-fn' if nested else 'plain'),
                  sample={'css': text, 'getUrls': urls})
@@ -198,7 +239,7 @@ class C19(Check):
         if urls != want_urls:
             ctx.violate('getUrls yields every @import target and every url() value exactly once, imports first, '
                         'then in document order', w, {'getUrls': urls, 'expected': want_urls},
-                        known='C19-url-in-function' if nested and urls == top_urls(sheet) else None)
+                        None)
         # identity replacer: nothing changes
         before_text = s.cssText
         cssutils.replaceUrls(s, lambda u: u)
@@ -222,7 +263,7 @@ class C19(Check):
         if after_urls != exp_after:
             ctx.violate('getUrls after replaceUrls(f) = map f (getUrls before)', dict(w, ignoreImportRules=ign),
                         {'after': after_urls, 'expected': exp_after})
-        if after != map_top_urls(sheet, lambda u: 'X/' + u, not ign):
+        if after != map_top_urls(sheet, lambda u: 'X/' + u, not ign, deep=True):
             ctx.violate('replaceUrls touches nothing but the URLs', dict(w, ignoreImportRules=ign),
                         {'after': after})
         # the change is what gets serialised
@@ -242,8 +283,8 @@ class C19(Check):
                     return 'Y/' + u
                 cssutils.replaceUrls(s.cssRules[i].style, g)
                 got_st = S.p_style(s.cssRules[i].style)
-                want_st = map_style(r[2], lambda u: 'Y/' + u)
-                if got_st != want_st or log2 != style_urls(r[2], False):
+                want_st = map_style(r[2], lambda u: 'Y/' + u, deep=True)
+                if got_st != want_st or log2 != style_urls(r[2], True):
                     ctx.violate('replaceUrls(style, f) replaces exactly the URLs of that declaration block, once each, '
                                 'in order', dict(w, rule=i), {'after': got_st, 'calls': log2})
                 res.append(('replstyle pfx:%s %s' % (enc('Y/'), S.wire_style(r[2])),
@@ -376,16 +417,21 @@ class C19(Check):
                 ctx.count('flatten:raises:' + type(exc).__name__)
                 ctx.violate('resolveImports returns the flattened sheet (it does not raise)', w,
                             {'exception': repr(exc)[:300]},
-                            known='C19-media-import-of-kept-import-raises'
-                            if isinstance(exc, xml.dom.HierarchyRequestErr) and hier_region(case) else None)
+                            None)
             else:
+                if any(k != 'u' for k, u in log[n_parse:]):
+                    ctx.violate('every fetch goes through the fetcher the sheet was parsed with', w,
+                                {'fetched_by_the_default_fetcher': [u for k, u in log[n_parse:] if k != 'u']})
                 if log[n_parse:]:
                     ctx.violate('flattening fetches nothing: every target was fetched when the sheet was parsed',
                                 w, {'fetched_during_resolveImports': log[n_parse:]},
-                                known='C19-unavailable-refetched'
-                                if all(k == 'd' for k, u in log[n_parse:]) and orig.unavail else None)
+                                known='C19-unavailable-refetched' if orig.unavail else None)
                 if not cyc:
                     flat = V.meaning(S.shallow(flat_rules), case['href'], case['vfs'])
+                    left = V.unmerged_imports(orig, flat)
+                    if left:
+                        ctx.violate('an @import without media whose target is available is merged, not kept', w,
+                                    {'kept': left})
                     ds = V.compare_meaning(orig, flat)
                     ctx.count('flatten:meaning-' + ('same' if not ds else 'differs'))
                     seen = set()
@@ -438,6 +484,10 @@ class C19(Check):
         flat = V.meaning(S.shallow(S.p_rules(back.cssRules, deep=False)), case['href'], case['vfs'], drop_empty=True,
                          minified=minify)
         orig = V.meaning(case['main'], case['href'], case['vfs'], drop_empty=True, minified=minify)
+        left = V.unmerged_imports(orig, flat)
+        if left:
+            ctx.violate('csscombine merges an @import without media whose target is available', dict(w, output=text),
+                        {'kept': left})
         seen = set()
         for kind, detail, expl in V.compare_meaning(orig, flat):
             if (kind, expl) in seen:
@@ -505,9 +555,6 @@ class C19(Check):
         cssutils = impl()
         try:
             w = finding['witness']['data']
-            if finding['id'] == 'C19-url-in-function':
-                s = self.parse_flat(cssutils, w['css'])
-                return list(cssutils.getUrls(s)) != w['expected']
             case = {'href': w['href'], 'main': S.j_rules(w['main']),
                     'vfs': {u: S.j_rules(r) for u, r in w['vfs'].items()}}
             probe = Probe(ctx)
@@ -589,23 +636,6 @@ def explain(line):
         else:
             out.append(w)
     return ' '.join(out)
-
-
-def hier_region(case):
-    """region of C19-media-import-of-kept-import-raises: an @import with media other than `all` whose target
-    itself contains an @import"""
-    sheets = [case['main']] + list(case['vfs'].values())
-    import urllib.parse as up2
-    for href, rules in [(case['href'], case['main'])] + list(case['vfs'].items()):
-        for r in rules:
-            if r[0] == 'I' and r[2] != 'all':
-                try:
-                    full = up2.urljoin(href, r[1])
-                except ValueError:
-                    continue
-                if any(x[0] == 'I' for x in case['vfs'].get(full, [])):
-                    return True
-    return False
 
 
 # ------------------------------------------------------------------------------------------------
